@@ -5,8 +5,8 @@ V = os.path.dirname(os.path.dirname(os.path.abspath(__file__)))
 
 CLAIMS = {
   "C01": dict(
-    text="Lean 4 theorems, unbounded: chunk-body round trip for every well-formed prefix table and every legal grouping into single/run blocks (iterUnits ∘ encBlocks), run-length varint for all x<2^24 and jumpstart<=24 with the frozen terminator rule, offset MSB-last rule for every (r,k,off), prefix-code matching for every prefix-free table, integer k spec; data-type maps are C12. Tie: the real compressor's bytes for structured inputs of all 15 types/levels/orders are decoded by the Lean spec decoder and by the real decoder and compared with the input bit for bit; big implementation-only round trips (runs >= 2^23, 2^24-1 numbers).",
-    note="File-level framing theorem (decode∘encode at file level) and the refinement of the real decoder's four read modes are staged (DESIGN 11); word packing and Huffman lookup tables are modelled at bit-list level, not verified; training heuristics are observed, not predicted.",
+    text="Lean 4 theorems, unbounded: chunk-body round trip for every well-formed prefix table and every legal grouping into single/run blocks (iterUnits ∘ encBlocks), run-length varint for all x<2^24 and jumpstart<=24 with the frozen terminator rule, offset MSB-last rule for every (r,k,off), prefix-code matching for every prefix-free table, integer k spec; data-type maps are C12. End-to-end (C01e): for ANY training answer satisfying the per-run evaluated metadata predicate and fitting the fields, the compressor model's output decoded by the operational decompressor (whole file and chunk API, real stride lookup model) returns the input. Tie: the real compressor's bytes for structured inputs of all 15 types/levels/orders are decoded by the Lean spec decoder and by the real decoder and compared with the input bit for bit; BitWriter/BitReader operation scripts through the guarded hooks vs the Lean word-level model; big implementation-only round trips (runs >= 2^23, 2^24-1 numbers).",
+    note="The end-to-end theorem takes 'the training answer is congruent/covering and fits the fields' as hypothesis (evaluated on every observed table; C10t proves the training model always satisfies the structural part). Word-level packing: the Lean word-level model of BitWriter/BitReader is proved equal to the bit-list level (writeDiff/writeVarint/readDiff/readVarint/... specs) and compared with the real code through the guarded hooks; float heuristics are oracles.",
     technique="Lean 4 theorems (induction over blocks, omega) + enc-stream correspondence (real bytes decoded by the Lean spec decoder) + direct round-trip oracle",
     ref="7/C01"),
   "C02": dict(
@@ -31,7 +31,7 @@ CLAIMS = {
     ref="7/C04"),
   "C05": dict(
     text="Lean 4: for every well-formed file and every schedule of whole-byte writes concatenating to the file, interleaved anywhere with drains and free_compressed_memory and ending with a drain: no error, the canonical item sequence (a chunk's consecutive batches merged) equals that of write-all-then-drain (independent of the limit), the numbers concatenate to the file's numbers, the decompressor ends terminated with nothing unread; free_compressed_memory changes no later result and shifts the reported bit position by a multiple of 64 (all operations commute with erasing `freed`). Tie: every single cut of small files, every pair of cuts of tiny files, random multi-cut schedules with frees, one-byte-at-a-time feeding: canonical items and final bit position on the implementation; token-by-token comparison (partial batches and mid-body bit_idx included) with the model.",
-    note="Batch boundaries under partial data legitimately differ from the all-at-once run; the theorem and the oracle compare canonical sequences. BitWords::extend/truncate_left are modelled as bit-list append/offset.",
+    note="Batch boundaries under partial data legitimately differ from the all-at-once run; the theorem and the oracle compare canonical sequences. BitWords::extend/truncate_left: the Lean word-level model is proved to be bit-list append / drop of 64k bits for every alignment (extend_spec, truncateLeft_spec) and is compared with the real BitWords through the guarded hooks.",
     technique="Lean 4 refinement proof over write/drain/free schedules + dops-stream correspondence",
     ref="7/C05"),
   "C06": dict(
@@ -55,8 +55,8 @@ CLAIMS = {
     technique="Lean 4 theorems on an operational compressor model + cops-stream correspondence",
     ref="7/C09"),
   "C10": dict(
-    text="Lean 4: the decidable predicate WFc evaluated on every observed ChunkMetadata means exactly the property's statement (bounds, pairwise disjoint, unique cover, counts = members, congruence mod divisor, complete prefix-free tree, <= 2^level leaves), moments = initial differences; the quantile-cut stage tiles [0,n) cutting only between distinct values for every input (loop invariant proof). Tie: on every chunk of the enc stream the model evaluates WFc against the chunk's numbers/deltas, returned == parsed metadata, body size == spec-encoded length.",
-    note="Merge DP and Huffman construction are not modelled; their output is checked per instance by WFc (so a wrong merge/Huffman is detected on explored inputs, not excluded for all inputs).",
+    text="Lean 4: the decidable predicate WFc evaluated on every observed ChunkMetadata means exactly the property's statement (bounds, pairwise disjoint, unique cover, counts = members, congruence mod divisor, complete prefix-free tree, <= 2^level leaves), moments = initial differences; a Lean model of the training pipeline (quantile cuts, raw prefixes with slice GCDs and the run-length rule, consecutive merging with divisor folding, any Huffman tree) with the float-driven choices as oracles: for EVERY grouping oracle and every complete tree the resulting table satisfies the predicate (train_wfc), has at most 2^level leaves, exact divisors (merge_gcd_exact), an all-equal chunk gives one single-valued range, a >=90% dominant value of a >=2000 chunk gets its own run-length range (dominant_own_prefix); the decidable `explains` (observed table reachable under some oracle) is sound for the predicate. Tie: on every chunk of the enc stream the model evaluates WFc against the chunk's numbers/deltas, returned == parsed metadata, body size == spec-encoded length.",
+    note="The merge DP's cost function and the Huffman heap order are oracles (any choice is covered by the theorems); that the real code's tables are reachable by the model is checked per run by `explains` on every observed table (all were, across all dtypes/levels), not proved.",
     technique="Lean 4 theorems (meaning of the evaluated predicate, quantile-cut invariant) + enc-stream evaluation",
     ref="7/C10"),
   "C11": dict(
